@@ -564,7 +564,7 @@ def interval_of(st, name, window=(-4, 8)):
     return window
 
 
-def atom_forward(fn, classify, kill=None, limit=20000):
+def atom_forward(fn, classify, kill=None, limit=20000, symbolic=None, extra0=None, step=None, edge_hook=None):
     """Path-sensitive facts with constant propagation of integer locals.
 
     classify(rel) -> iterable of (fact name, bool) implied when the relation rel = (lhs, op, rhs) holds;
@@ -572,7 +572,26 @@ def atom_forward(fn, classify, kill=None, limit=20000):
     constant values of integer locals (assigned constants, `|=`, `&=`, `+=`, `-=` of constants), so that a
     condition encoded into a flag variable and tested later (`have |= 2; ... switch (have)`) prunes the
     infeasible combinations exactly like the nested ifs it replaces.
-    Returns before: site key -> set of states; use facts_of(state) / consts_of(state)."""
+    symbolic(rhs) -> hashable or None lets a local also carry a symbolic value (e.g. which field a pointer was
+    set to); extra0 / step(extra, site, facts, consts) -> extra thread a rule-specific component through the state.
+    Returns before: site key -> set of states; use facts_of(state) / consts_of(state) / extra_of(state)."""
+    # locals stepped around a loop without being re-initialised on the way are not constants worth following
+    varying = set()
+    inits = {}
+    for t in fn.sites():
+        ev = t.ev
+        if ev['k'] == 'store' and is_var(ev.get('lhs')) and ev.get('op') == '=' and const_of(ev.get('rhs')) is not None:
+            inits.setdefault(ev['lhs']['name'], set()).add(t.bid)
+        if ev['k'] == 'decl' and ev.get('var') and const_of(ev.get('init')) is not None:
+            inits.setdefault(ev['var'], set()).add(t.bid)
+    for t in fn.sites():
+        ev = t.ev
+        if ev['k'] == 'store' and is_var(ev.get('lhs')) and ev.get('op') in ('++', '--', '+=', '-=', '*=', '<<=', '>>=', '|=', '&=', '^='):
+            v = ev['lhs']['name']
+            cut = inits.get(v, set()) - {t.bid}
+            if t.bid in fn.reach([e.dst for e in fn.out[t.bid]], cut_blocks=cut):
+                varying.add(v)
+
     def apply_op(op, a, c):
         try:
             return {'=': c, '|=': a | c, '&=': a & c, '+=': a + c, '-=': a - c, '^=': a ^ c, '<<=': a << c, '>>=': a >> c, '*=': a * c}[op]
@@ -583,6 +602,14 @@ def atom_forward(fn, classify, kill=None, limit=20000):
         return {'==': v == c, '!=': v != c, '<': v < c, '<=': v <= c, '>': v > c, '>=': v >= c}[op]
 
     def on_event(st, s):
+        facts, consts = st[0], st[1]
+        extra = st[2] if len(st) > 2 else None
+        if step is not None:
+            extra = step(extra, s, dict(facts), dict(consts))
+        r = _on_event2((facts, consts), s)
+        return (r[0], r[1], extra)
+
+    def _on_event2(st, s):
         facts, consts = st
         ev = s.ev
         if kill is not None:
@@ -594,14 +621,20 @@ def atom_forward(fn, classify, kill=None, limit=20000):
             v, rhs, op = ev['lhs']['name'], ev.get('rhs'), ev.get('op')
         elif ev['k'] == 'decl' and ev.get('var'):
             v, rhs, op = ev['var'], ev.get('init'), '='
+        if v is not None and v in varying:
+            v = None
         if v is not None:
             d = dict(consts)
             c = const_of(rhs) if rhs is not None else None
-            if op in ('++', '--') and v in d:
+            if op in ('++', '--') and isinstance(d.get(v), int):
                 d[v] = d[v] + (1 if op == '++' else -1)
             elif op == '=' and isinstance(c, int):
                 d[v] = c
-            elif op in ('|=', '&=', '+=', '-=', '^=', '<<=', '>>=', '*=') and isinstance(c, int) and v in d and apply_op(op, d[v], c) is not None:
+            elif op == '=' and symbolic is not None and isinstance(rhs, dict) and symbolic(rhs) is not None:
+                d[v] = symbolic(rhs)
+            elif op in ('++', '--'):
+                d.pop(v, None)
+            elif op in ('|=', '&=', '+=', '-=', '^=', '<<=', '>>=', '*=') and isinstance(c, int) and isinstance(d.get(v), int) and apply_op(op, d[v], c) is not None:
                 d[v] = apply_op(op, d[v], c)
             else:
                 d.pop(v, None)
@@ -617,10 +650,23 @@ def atom_forward(fn, classify, kill=None, limit=20000):
         return tuple(sorted(d.items()))
 
     def on_edge(st, e):
+        r = _on_edge2((st[0], st[1]), e)
+        if r is None:
+            return None
+        extra = st[2] if len(st) > 2 else None
+        if edge_hook is not None:
+            rr_ = edge_rel(e)
+            if rr_:
+                extra = edge_hook(extra, dict(r[0]), dict(r[1]), rr_)
+                if extra is False:
+                    return None
+        return (r[0], r[1], extra)
+
+    def _on_edge2(st, e):
         facts, consts = st
         d = dict(consts)
         if e.label in ('case', 'default') and e.cond is not None:
-            if is_var(e.cond) and e.cond['name'] in d:
+            if is_var(e.cond) and isinstance(d.get(e.cond['name']), int):
                 v = d[e.cond['name']]
                 if e.label == 'case' and v not in (e.vs or []):
                     return None
@@ -629,21 +675,36 @@ def atom_forward(fn, classify, kill=None, limit=20000):
             elif is_var(e.cond) and e.cond.get('sc') == 'local' and e.label == 'case' and e.vs and len(e.vs) == 1:
                 d[e.cond['name']] = e.vs[0]
                 consts = tuple(sorted(d.items()))
-            return (facts, consts)
+            # a switch over something else: let the rule see each label as an equality
+            nf = facts
+            if e.label == 'case' and e.vs and len(e.vs) == 1:
+                nf = add_facts(facts, list(classify((e.cond, '==', {'k': 'int', 'v': e.vs[0]})) or ()))
+            elif e.label == 'case' and e.vs:
+                nf = add_facts(facts, list(classify((e.cond, 'in', {'k': 'set', 'vs': sorted(e.vs)})) or ()))
+            elif e.label == 'default':
+                nf = add_facts(facts, list(classify((e.cond, 'notin', {'k': 'set', 'vs': sorted(e.notin or [])})) or ()))
+            if nf is None:
+                return None
+            return (nf, consts)
         r = edge_rel(e)
         if not r:
             return st
         l, op, rr = r
         c = const_of(rr)
         if is_var(l) and l.get('sc') == 'local' and isinstance(c, int) and op in ('==', '!=', '<', '<=', '>', '>='):
-            if l['name'] in d:
+            if isinstance(d.get(l['name']), int):
                 if not holds(d[l['name']], op, c):
+                    return None
+            elif isinstance(d.get(l['name']), tuple) and c == 0 and op in ('==', '!='):
+                # a symbolic value is the address of something (non-null) unless it is the null marker
+                isnull = d[l['name']] == ('null',)
+                if isnull != (op == '=='):
                     return None
             elif op == '==':
                 d[l['name']] = c
                 consts = tuple(sorted(d.items()))
         # a masked test of a known flag word: (v & K) != 0
-        if isinstance(l, dict) and l.get('k') == 'bin' and l.get('op') == '&' and is_var(l.get('l')) and l['l']['name'] in d and isinstance(const_of(l.get('r')), int) and isinstance(c, int) \
+        if isinstance(l, dict) and l.get('k') == 'bin' and l.get('op') == '&' and is_var(l.get('l')) and isinstance(d.get(l['l']['name']), int) and isinstance(const_of(l.get('r')), int) and isinstance(c, int) \
                 and op in ('==', '!='):
             if not holds(d[l['l']['name']] & const_of(l['r']), op, c):
                 return None
@@ -651,9 +712,17 @@ def atom_forward(fn, classify, kill=None, limit=20000):
         if nf is None:
             return None
         return (nf, consts)
-    before, at_exit, sin, bout = fn.forward(((), ()), on_event, on_edge, limit=limit)
+    before, at_exit, sin, bout = fn.forward(((), (), extra0), on_event, on_edge, limit=limit)
     return before
 
 
 def facts_of(st):
     return dict(st[0])
+
+
+def consts_of(st):
+    return dict(st[1])
+
+
+def extra_of(st):
+    return st[2] if len(st) > 2 else None
